@@ -203,6 +203,71 @@ fn specials() -> Vec<Special> {
     ]
 }
 
+/// Importers that are not files (-e, stdin, --ext-code, --tla-code): there is no importer's
+/// directory; relative paths resolve through -J only, absolute paths always.
+fn fileless_sweep(rep: &mut Report) {
+    let root = cli::scratch("c13f");
+    let _ = std::fs::remove_dir_all(&root);
+    for d in ["D", "J1", "J2", "cwd"] {
+        std::fs::create_dir_all(format!("{root}/{d}")).unwrap();
+    }
+    std::fs::write(format!("{root}/D/x.libsonnet"), "\"in-D\"").unwrap();
+    std::fs::write(format!("{root}/J1/x.libsonnet"), "\"in-J1\"").unwrap();
+    std::fs::write(format!("{root}/cwd/x.libsonnet"), "\"in-cwd\"").unwrap();
+    let forms = ["exec", "stdin", "ext-code", "tla-code"];
+    let paths: Vec<(String, &str)> = vec![(format!("{root}/D/x.libsonnet"), "abs"), ("x.libsonnet".to_string(), "rel"), (format!("{root}/D/missing.libsonnet"), "abs-missing")];
+    let jlists: Vec<Vec<&str>> = vec![vec![], vec!["J2"], vec!["J1"], vec!["J1", "J2"], vec!["J2", "J1"]];
+    for form in forms {
+        for (path, pk) in &paths {
+            for jl in &jlists {
+                for kind in ["import", "importstr"] {
+                    let imp = format!("{kind} \"{path}\"");
+                    let mut args: Vec<String> = Vec::new();
+                    let mut stdin: Option<Vec<u8>> = None;
+                    match form {
+                        "exec" => args.extend(["-e".to_string(), imp.clone()]),
+                        "stdin" => {
+                            args.push("-".into());
+                            stdin = Some(imp.clone().into_bytes());
+                        }
+                        "ext-code" => args.extend(["--ext-code".to_string(), format!("v={imp}"), "-e".to_string(), "std.extVar(\"v\")".to_string()]),
+                        _ => args.extend(["--tla-code".to_string(), format!("v={imp}"), "-e".to_string(), "function(v) v".to_string()]),
+                    }
+                    for j in jl {
+                        args.push("-J".into());
+                        args.push(format!("{root}/{j}"));
+                    }
+                    let o = cli::run(&args, stdin.as_deref(), Stdout::Capture, &[], Some(&format!("{root}/cwd")));
+                    rep.evaluations += 1;
+                    rep.states += 1;
+                    rep.traces_validated += 1;
+                    rep.transitions += 1;
+                    // model
+                    let want: Option<&str> = match *pk {
+                        "abs" => Some("in-D"),
+                        "abs-missing" => None,
+                        _ => if jl.contains(&"J1") { Some("in-J1") } else { None },
+                    };
+                    let want_text = want.map(|w| if kind == "import" { format!("\"{w}\"\n") } else { format!("\"\\\"{w}\\\"\"\n") });
+                    let case = json!({"type":"import-fileless","form":form,"path":path,"jlist":jl,"kind":kind});
+                    rep.outcome(if want.is_some() { "fileless:found" } else { "fileless:not-found" });
+                    rep.distinct(&(form, *pk, jl.len(), kind));
+                    let stderr = String::from_utf8_lossy(&o.stderr).to_string();
+                    if o.signal.is_some() || !matches!(o.code, Some(0 | 1)) || stderr.contains("panicked at") {
+                        rep.violation("C13/crash", format!("{form} {imp} -J {jl:?}: {}", describe(&o)), case);
+                        continue;
+                    }
+                    let got = if o.code == Some(0) { Some(String::from_utf8_lossy(&o.stdout).to_string()) } else { None };
+                    if got != want_text {
+                        rep.violation("C13/fileless-importer/wrong-resolution", format!("{form} `{imp}` with -J {jl:?} (cwd has x.libsonnet too): expected {want_text:?} but {}", describe(&o)), case);
+                    }
+                }
+            }
+        }
+    }
+    let _ = std::fs::remove_dir_all(&root);
+}
+
 fn special_sweep(rep: &mut Report) {
     let root = cli::scratch("c13s");
     for s in specials() {
@@ -290,11 +355,12 @@ pub fn run(ctx: &Ctx) -> i32 {
     let quick = ctx.quick();
     let mut total = util::par_shards(ctx.threads, 16, |s, n| layout_sweep(&util::Shard::plain(s, n), quick));
     special_sweep(&mut total);
+    fileless_sweep(&mut total);
     util::finish(
         ctx,
         LevelInfo {
             level: "fault_enumeration",
-            rule: "every subset of {importer's directory, J1, J2, J3} holding the file x all 16 ordered -J lists of distinct directories x 5 spellings (plain, ./, sub/../, two absolute) x import/importstr/importbin, plus every -J list of length <=3 (and the two-directory lists of length 4) in which a directory is repeated, on the real binary against ref_import; load-once across spellings, symlinked files and directories; library's own directory first; std.thisFile; cycles; dangling symlink, directory, missing file (error located at the import expression); exact content for all 256 byte values and invalid UTF-8. distinct+nontrivial = distinct (layout, -J length, spelling, kind)".into(),
+            rule: "every subset of {importer's directory, J1, J2, J3} holding the file x all 16 ordered -J lists of distinct directories x 5 spellings (plain, ./, sub/../, two absolute) x import/importstr/importbin, plus every -J list of length <=3 (and the two-directory lists of length 4) in which a directory is repeated, on the real binary against ref_import; importers that are not files (-e, stdin, --ext-code, --tla-code) x absolute/relative/missing paths x 5 -J lists; load-once across spellings, symlinked files and directories; library's own directory first; std.thisFile; cycles; dangling symlink, directory, missing file (error located at the import expression); exact content for all 256 byte values and invalid UTF-8. distinct+nontrivial = distinct (layout, -J length, spelling, kind)".into(),
             assumptions: vec!["unreadable files cannot be produced with permissions as root; a directory and a dangling symlink stand in for them".into()],
         },
         total,
